@@ -75,7 +75,7 @@ func verifStrandedFinal(c *connection) func() {
 //verif:param 0 4
 //verif:loop 40
 //verif:poloop 3
-//verif:potimeout 400
+//verif:potimeout 900
 //verif:also C19
 func verifHarness_C06_handoff(sc int) {
 	var c *connection
@@ -85,7 +85,9 @@ func verifHarness_C06_handoff(sc int) {
 	case 1, 4:
 		c = verifNewConn(verifConnCfg{closeCBs: 1})
 	case 2:
-		c = verifNewConn(verifConnCfg{onRequest: true, closeCBs: 1, handler: verifHandlerAll})
+		// (a handler that may consume only part of the input per call: after the peer's close it
+		// must keep being offered the rest)
+		c = verifNewConn(verifConnCfg{onRequest: true, closeCBs: 1, handler: verifHandlerConsume})
 	case 3:
 		c = verifNewConnOnConnect(verifHandlerAll)
 	}
